@@ -1,0 +1,18 @@
+// Copyright JAMF Software, LLC
+
+//go:build verif
+
+package pebble
+
+import "github.com/cockroachdb/pebble"
+
+// VerifOptions, when set by a simulation harness, may adjust the Pebble
+// options (tuning knobs only) right before the DB is opened.
+// Compiled only with the `verif` build tag.
+var VerifOptions func(dbdir string, opts *pebble.Options)
+
+func verifOptions(dbdir string, opts *pebble.Options) {
+	if VerifOptions != nil {
+		VerifOptions(dbdir, opts)
+	}
+}
